@@ -192,11 +192,33 @@ def main(argv=None):
     for n in failed_names:
         if n not in obligations and "/canary:" not in n:
             obligations.append(n)
+    known = json.load(open(KNOWN)) if os.path.exists(KNOWN) else {"findings": [], "fixed": []}
+    known_map = {k["obligation"]: k for k in known.get("findings", []) if k.get("property") == prop}
+    # a finding is tied to the exact text of the function it was recorded for: if that function has been edited and
+    # the obligation still fails, it is reported as a (possibly different) violation again
+    fn_hashes = {}
+    for name, (u, res) in results.items():
+        for f in u.fnspecs:
+            try:
+                fn_hashes[f"{u.prop}/{u.name}/{f.key}"] = fn_text_hash(u, f)
+            except Exception:
+                pass
+    for ob, k in list(known_map.items()):
+        want = k.get("fn_hash")
+        if want:
+            base_key = ob.rsplit("/", 1)[0] if "/loop#" not in ob else ob.split("/loop#")[0]
+            if fn_hashes.get(base_key) != want:
+                del known_map[ob]
+    if os.environ.get("VX_PRINT_FN_HASHES"):
+        for kk, vv in sorted(fn_hashes.items()):
+            print("FNHASH", kk, vv)
+    new_fail = [x for x in failed if x["obligation"] not in known_map]
+    known_hit = sorted({x["obligation"] for x in failed if x["obligation"] in known_map})
     # baseline
     base = json.load(open(BASELINE)) if os.path.exists(BASELINE) else {}
     if a.update_baseline:
-        if failed_names or und:
-            print("refusing to update baseline: not green", failed_names[:10], und[:5])
+        if new_fail or und:
+            print("refusing to update baseline: not green", sorted({x["obligation"] for x in new_fail})[:10], und[:5])
         else:
             base[prop] = sorted(obligations)
             json.dump(base, open(BASELINE, "w"), indent=0, sort_keys=True)
@@ -207,10 +229,9 @@ def main(argv=None):
         if b != cur and not und:
             missing, newo = sorted(b - cur)[:5], sorted(cur - b)[:5]
             und.append(f"obligation set differs from committed baseline (missing {missing}, new {newo}); contracts no longer attach as recorded")
-    known = json.load(open(KNOWN)) if os.path.exists(KNOWN) else {"findings": [], "fixed": []}
-    known_map = {k["obligation"]: k for k in known.get("findings", []) if k.get("property") == prop}
-    new_fail = [x for x in failed if x["obligation"] not in known_map]
-    known_hit = sorted({x["obligation"] for x in failed if x["obligation"] in known_map})
+    # obligations that fail exactly as recorded in known_findings.json are findings, not proof obligations of this run:
+    # they are reported under coverage.known_findings and not counted as obligations (nor as discharged)
+    obligations = [o for o in obligations if o not in known_hit]
     discharged = len([o for o in obligations if o not in failed_names])
 
     wall = time.time() - t0
@@ -227,7 +248,8 @@ def main(argv=None):
             "by_backend": by_backend, "solver_ms": smt_ms,
             "rewrites_applied": summarize_rewrites(rewrites),
             "canaries": canary_total, "canaries_failed_as_expected": canary_failed,
-            "failed_obligations": failed_names, "undecided": und,
+            "failed_obligations": [n for n in failed_names if n not in known_hit], "undecided": und,
+            "known_findings": [{"obligation": k, "what": known_map[k].get("what")} for k in known_hit],
             "clauses_decided": getattr(mod, "DECIDED", []), "clauses_not_decided": getattr(mod, "NOT_DECIDED", []),
             "bounded": getattr(mod, "BOUNDED", []),
             "samples": samples + (extra_res.get("samples", []) if extra_res else []),
@@ -277,6 +299,14 @@ def main(argv=None):
     print(f"OK {prop}: {discharged}/{len(obligations)} obligations discharged, {len(fns)} functions under contract, "
           f"{canary_failed}/{canary_total} canaries failed as expected, {wall:.1f}s")
     return 0
+
+
+def fn_text_hash(u, f):
+    import hashlib
+    src = u.src(f.file)
+    it = src.find("fn", f.name, impl=f.impl, nth=f.nth)
+    txt = " ".join(t.text for t in src.toks[it.start:it.end])
+    return hashlib.sha1(txt.encode()).hexdigest()[:16]
 
 
 def default_witness(prop):
